@@ -198,6 +198,25 @@ func (tr *Tr) evalCall(env *CEnv, x *CCall) (Value, types.Type) {
 				}
 			}
 			return boolV(sAnd(cs...)), bt
+		case "funcid":
+			// funcid("pkg.Func" | "pkg.Type.Method"): the identity of a function value (bound method values are identified by the method)
+			name := x.Args[0].(*CStr).Val
+			f := tr.g.funcs[name]
+			if f == nil {
+				f = tr.g.funcs[name+"#bound method wrapper for "+name]
+			}
+			if f == nil {
+				// bound method wrappers are created on demand: look for a function whose key starts with name
+				for k, v := range tr.g.funcs {
+					if strings.HasPrefix(k, name+"#") || k == name {
+						f = v
+					}
+				}
+			}
+			if f == nil {
+				panic(subsetErr("funcid: unknown function " + name))
+			}
+			return Sc{T: tr.g.funcIDByKey(name, f)}, nil
 		case "fresh":
 			v, t := tr.evalC(env, x.Args[0])
 			r := tr.refOf(env, v, t)
